@@ -19,7 +19,7 @@ Locks nest in one order only: `live` (Live._lock / Progress._lock) < `console` (
 
 Finding F22 (print computes its erase sequence before another thread changes the frame height): no small
 repair exists, so `live_screen_under_schedules_partial` is stated for sessions whose frames all have one
-height, and `print_vs_taller_refresh_breaks_screen` is the machine-checked witness schedule for the
+height, and `old_print_vs_taller_refresh_breaks_screen` is the machine-checked witness schedule for the
 general statement (kept visible below).
 -/
 namespace RichModel.C11
@@ -140,6 +140,26 @@ theorem finished_thread_flushed (cfg : Cfg) (sh : Shared) (progs : List (List Op
   simp only [Sim, Abs.final, Local.abs, Bool.and_eq_true, Bool.not_eq_true'] at hs
   exact inv.clean t hs.2
 
+/-- **write_per_print.**  Under every schedule, once a thread has finished: every non-empty piece of output it
+produced (the rendering of one print / log call is one piece) occurs exactly once in that thread's writes and
+capture results together; and any `file.write` that contains it was issued by that thread and consists only
+of pieces of that thread from the same operation — the print reached the file contiguously, in one write
+call, once, unmixed. -/
+theorem write_per_print (cfg : Cfg) (sh : Shared) (progs : List (List Op)) (hf : Fresh sh) (s : State)
+    (hr : Reach cfg sh progs s) (t : Nat) (hd : (s.th t).done = true) (x : Item) (hx : x ∈ (s.th t).emitted)
+    (hne : nonEmpty x = true) :
+    (written s t ++ capturedItems (s.th t)).count x = 1 ∧
+    ∀ w ∈ s.sh.file, x ∈ w.items → w.tid = t ∧ ∀ y ∈ w.items, y.tid = t ∧ y.op = x.op := by
+  have o := reach_out hf hr
+  have h1 := output_exactly_once cfg sh progs hf s hr t x hx hne
+  rw [finished_thread_flushed cfg sh progs hf s hr t hd, List.append_nil] at h1
+  refine ⟨h1, fun w hw hxw => ?_⟩
+  have hxt : x.tid = t := o.ownE t x hx
+  have hw1 := o.ownW w hw x hxw
+  refine ⟨by rw [← hw1.1, hxt], fun y hy => ?_⟩
+  have hw2 := o.ownW w hw y hy
+  exact ⟨by rw [hw2.1, ← hw1.1, hxt], by rw [hw2.2, hw1.2]⟩
+
 /-- **capture_isolated.**  What a capture block of thread `t` returns consists of pieces produced by `t`
 only: it never contains a piece any other thread produced.  (And it never swallows one: every piece of
 another thread `u` is accounted for, exactly once, in `u`'s own writes / captures / buffer —
@@ -234,7 +254,7 @@ set_option maxRecDepth 100000 in
 /-- **F22.**  Under `schedW` the delayed write erases only 2 of the 4 rows on display: the screen ends as
 `H1 H2 | a | H1 H2 H3 H4` — a remnant of the old frame above the printed line — although every thread has
 finished and the file order says: printed `a`, last frame `H1 … H4`. -/
-theorem print_vs_taller_refresh_breaks_screen :
+theorem old_print_vs_taller_refresh_breaks_screen :
     let s := run cfgW (initState shW progsW) schedW
     (replay 8 Screen.init (fileOps s)).rows =
       [['H', '1'], ['H', '2'], ['a'], ['H', '1'], ['H', '2'], ['H', '3'], ['H', '4']] ∧
